@@ -8,13 +8,16 @@ from ..tree import Arr, Frame, LoD, Raised
 from .common import BV, T, mk_col, kind_of, KIND_DTYPE
 from .c06 import frame_unchanged, arr_unchanged
 
-STR_POOL = ["a", "日本語テキスト", "two\nlines", "x" * 45, "", "é"]
+STR_POOL = ["a", "日本語テキスト", "two\nlines", "x" * 45, "", "é", "cr\rlf", "ls\u2028x", "end\n"]      # incl. line boundaries other than LF, and one at the end
 NAMES = ["a", "日本", "a_rather_long_column_name"]
-DTYPE_LABEL = {"i": "int64", "f": "float64", "T": "string", "O": "object", "b": "bool", "D": "datetime64[D]"}
+DTYPE_LABEL = {"i": "int64", "f": "float64", "T": "string", "O": "object", "b": "bool", "D": "datetime64[D]", "U": "<U7"}
 
 def pool_col(kind, n, tag):
     if kind == "T":
         return Arr("string", [choice(f"{tag}{i}", STR_POOL) for i in range(n)])
+    if kind == "U":
+        # a fixed-width string column (what NumPy functions such as np.where or astype(str) hand back)
+        return Arr("<U7", [choice(f"{tag}{i}", ["a", "ab\ncd", "", "wide 日本", "end\n"]) for i in range(n)])
     if kind == "O":
         return Arr("object", [choice(f"{tag}{i}", [None, "obj", ("t", 1), "y" * 45, "two\nlines"]) for i in range(n)])
     if kind == "D":
@@ -167,7 +170,7 @@ def harnesses(tier):
     q = tier == "quick"
     hs = [RenderFrame(["i"], 2, settings=True), RenderFrame(["T"], 1 if q else 2, settings=True), RenderFrame(["f"], 1 if q else 2, settings=True),
           RenderFrame(["i"], 2), RenderFrame(["f"], 1 if q else 2), RenderFrame(["T", "i"], 1 if q else 2), RenderFrame(["O", "D"], 2),
-          RenderFrame(["i"], 2, cls="GeoJSON"), RenderFrame([], 0)]
+          RenderFrame(["i"], 2, cls="GeoJSON"), RenderFrame([], 0), RenderFrame(["U"], 2)]
     for k in ("i", "f", "T", "O", "b", "D"):
         hs.append(RenderVector(k, 2))
     hs.append(RenderLod(2))
